@@ -40,6 +40,12 @@ fn main() {
         .find_map(|e| e.strip_prefix("inputs=").map(|v| v.parse().unwrap()))
         .unwrap_or(40);
     let validate = !o.extra.iter().any(|e| e == "novalidate");
+    let exh: usize = o
+        .extra
+        .iter()
+        .find_map(|e| e.strip_prefix("exh=").map(|v| v.parse().unwrap()))
+        .unwrap_or(4);
+    let (mut members, mut members_yes) = (0usize, 0usize);
     let mut st = Streams::create(&o.out, "lr");
     let mut h = Hist::default();
     let mut r = Rng::new(o.seed);
@@ -48,6 +54,7 @@ fn main() {
     let mut distinct_tables = std::collections::BTreeSet::new();
     let mut verdict_mismatch: Vec<String> = vec![];
     let mut extract_fail: Vec<String> = vec![];
+    let mut ctxfile = String::new();
     let mut hangs: Vec<String> = vec![];
     let mut panics: Vec<String> = vec![];
     for gi in 0..o.n {
@@ -97,6 +104,7 @@ fn main() {
                     *f = r.chance(1, 5);
                 }
                 distinct_tables.insert(tables.line());
+                ctxfile.push_str(&format!("{}\t{}\t{}\t{}\n", st.count, algo, a.user_start, enc_str(&text)));
                 st.case(&tables.line(), "ok");
                 if validate {
                     st.case(&grammar.line(a.start_prod), "ok");
@@ -184,6 +192,48 @@ fn main() {
                         &out,
                     );
                 }
+                // exhaustive membership cross-check against the table-independent oracle
+                // (`member`): all strings up to length `exh` over the grammar's terminals
+                if validate && !tables.recovery && exh > 0 && !used.is_empty() && used.len() <= 4 {
+                    let maxlen = if used.len() <= 2 { exh + 2 } else if used.len() == 3 { exh } else { exh.saturating_sub(1) };
+                    let mut w: Vec<usize> = vec![];
+                    loop {
+                        let items: Vec<StreamItem> = w
+                            .iter()
+                            .enumerate()
+                            .map(|(i, k)| StreamItem::Tok(2 * i as i64, Some(used[*k]), 2 * i as i64 + 1))
+                            .collect();
+                        let out = drive_real(&tables, &items, None, 0);
+                        let verdict = if out.starts_with("ok ") { "yes" } else if out.starts_with("err ") { "no" } else { "crash" };
+                        st.case(
+                            &format!("member kinds={}", w.iter().map(|k| used[*k].to_string()).collect::<Vec<_>>().join(",")),
+                            verdict,
+                        );
+                        members += 1;
+                        if verdict == "yes" {
+                            members_yes += 1;
+                        }
+                        // next string in length-lexicographic order
+                        let mut i = w.len();
+                        loop {
+                            if i == 0 {
+                                w = vec![0; w.len() + 1];
+                                break;
+                            }
+                            i -= 1;
+                            if w[i] + 1 < used.len() {
+                                w[i] += 1;
+                                for x in w.iter_mut().skip(i + 1) {
+                                    *x = 0;
+                                }
+                                break;
+                            }
+                        }
+                        if w.len() > maxlen {
+                            break;
+                        }
+                    }
+                }
                 // corrupted tables: exercise the panic branches of the driver and of the model
                 if gi % 4 == 0 && !tables.action.is_empty() && !tables.goto.is_empty() {
                     let mut bad = tables.clone();
@@ -219,9 +269,10 @@ fn main() {
     }
     let total = st.count;
     st.finish();
+    std::fs::write(o.out.join("lr.ctx"), ctxfile).unwrap();
     let _ = std::fs::remove_dir_all(&gen_dir);
     println!(
-        "{{\"hangs\":[{}],\"panics\":[{}],\"cases\":{},\"grammars\":{},\"distinct_tables\":{},\"verdict_mismatch\":[{}],\"extract_fail\":[{}],\"samples\":[{}],\"hist\":{}}}",
+        "{{\"members\":{members},\"members_yes\":{members_yes},\"hangs\":[{}],\"panics\":[{}],\"cases\":{},\"grammars\":{},\"distinct_tables\":{},\"verdict_mismatch\":[{}],\"extract_fail\":[{}],\"samples\":[{}],\"hist\":{}}}",
         hangs.iter().map(|s| json_str(s)).collect::<Vec<_>>().join(","),
         panics.iter().map(|s| json_str(s)).collect::<Vec<_>>().join(","),
         total,
